@@ -782,18 +782,21 @@ class Session:
         elif k == 'reopen':
             # between two transactions: the primary connection (with its attached secondaries) goes back to
             # the pool and is taken out again with the session's explicit transaction manager
-            if self.txn_open or self.failed:
-                return
             c = self.conns[0]
+            if self.txn_open or self.failed or not all(x._needs_to_join for x in c.connections.values()) \
+                    or c._reset_counter != ZODB.Connection.global_reset_counter:
+                return      # (only between transactions: nothing of the group has joined; and not after a
+                #              resetCaches(): the reopened connection would start with an empty cache while the
+                #              program still holds its objects)
             try:
                 c.close()
             except ConnectionStateError:
                 return
             c2 = self.dbs[0].open(transaction_manager=self.tm)
             self.count('reopen' + ('' if c2 is c else ':other-connection'))
-            if c2 is not c:                      # (never seen: the pool hands out the connection closed last)
-                self.connid[id(c2)] = self.connid[id(c)]
-                self.conns[0] = c2
+            if c2 is not c:                      # the pool handed out another connection: the program ends here
+                c2.close()
+                self.failed = True
         elif k == 'commit':
             self.do_commit()
         elif k == 'savepoint':
@@ -1198,7 +1201,8 @@ class Session:
             finally:
                 tm.abort()
                 c.close()
-            return
+            return True
+        return False
 
     def load_phase(self, keys, variant, missing=False, reimport=False, factory=False):
         ktxt = ','.join('%d:%s' % (d, o.hex()) for d, o in keys)
@@ -1247,9 +1251,13 @@ class Session:
                             close_db(db)
                 else:
                     self.weak_deref(dbs, keys)
-                if self.ndb == 3 and not (factory or missing or reimport):
-                    self.route_prepass(dbs, keys)
+                routed = self.ndb == 3 and not (factory or missing or reimport) and self.route_prepass(dbs, keys)
                 c = dbs[0].open(transaction_manager=transaction.TransactionManager())
+                if routed:
+                    # attach the pooled pair first (attaching it AFTER the group has its own d2 connection replaces
+                    # that one: the update() in get_connection lets the newcomer's map win)
+                    c.get_connection(DBNAMES[1])
+                    c.get_connection(DBNAMES[2])
                 res = [self.real_walk(c, keys) + (None if missing or reimport or factory else self.args_seen,)]
                 c.transaction_manager.abort()
                 c.close()
